@@ -15,7 +15,7 @@ RULE = ('a bystander stack (either data link layer) with 0-3 CAs in the claim st
         'sweep, 512 frames), complete foreign RTS/CTS sessions and a BAM between two reference nodes (FD sessions and multi-PG on J1939-22), and frames with every '
         'can.Message flag combination (11-bit, remote, error), and an RTS/CTS session whose destination loses its only listener after the first data packet. non-trivial = the sweep ran with at least one listener registered; distinct = distinct scenario JSON')
 FAULT_COUNTERS = {'foreign transport frames between two other nodes': 'foreign_tp_frames', 'flagged frames (11-bit / remote / error)': 'flag_frames', 'sessions whose destination lost its only listener mid-transfer': 'orphaned_sessions', 'single frames of the destination sweep': 'sweep_frames'}
-REQUIRED_PROBES = ['sweep_frames', 'deliveries_judged', 'foreign_tp_frames', 'flag_frames', 'addressless_cas', 'pdu2_frames', 'orphaned_sessions']
+REQUIRED_PROBES = ['sweep_frames', 'deliveries_judged', 'foreign_tp_frames', 'flag_frames', 'addressless_cas', 'pdu2_frames', 'orphaned_sessions', 'owned_cm_transfers']
 P1, P2, X = 0xA1, 0xA2, 0x7D
 STATE = {0: 'NONE', 1: 'WAIT_VETO', 2: 'NORMAL', 3: 'CANNOT_CLAIM'}
 
@@ -246,6 +246,39 @@ def execute(scn, keep_log=False, hook=None):
                      'msg': 'bystander sent %s during a session between two other nodes' % (own_tx()[tx0:][:2],)})
     if peak or st.tables() != t_before:
         viol.append({'clause': 'lasting-state', 'rank': 2, 'feat': {'phase': 'foreign-session'}, 'msg': 'bystander opened %d session(s) for foreign traffic; tables now %s' % (peak, st.tables())})
+    # ---- connection-mode transfers from a reference node to the addresses the stack owns, carrying a PDU1 and a PDU2 parameter group
+    #      (the transport may carry any PGN to one destination): delivered to the listeners bound to that address only
+    owned = [ca.device_address for ca in st.cas if ca.state == 2] + [x for x in cfg['ecu_listeners'] if isinstance(x, int)]
+    for dest in [a for a in dict.fromkeys(owned) if a not in (P1, P2, X, 254, 255)][:2]:
+        for (dpx, pfx, psx) in ((scn.get('dp', 0), scn['pf1'], dest), (0, 0xFE, 0xE3)):
+            must, allowed = bounds(dest)
+            n0 = len(w.deliveries)
+            dd = payload(16 + pfx, scn['foreign_len'] + 1)
+            p1.send_message(dest, dpx, pfx, psx, dd)
+            for _ in range(60):
+                sim.run_for(0.005)
+                if not p1.tx:
+                    break
+            sim.run_for(0.01)
+            stats['owned_cm_transfers'] += 1
+            # (a CA waiting for its veto window may become operational while the transfer runs)
+            must2, allowed2 = bounds(dest)
+            must, allowed = must & must2, allowed | allowed2
+            got = [d for d in w.deliveries[n0:] if d['data'] == bytes(dd)]
+            ids = [d['l'] for d in got]
+            want_pgn = rc.sae_pgn(dpx, pfx, 0 if pfx < 240 else psx)
+            if any(d['pgn'] != want_pgn or d['sa'] != P1 for d in got):
+                viol.append({'clause': 'wrong-content', 'rank': 1, 'msg': 'connection-mode message %05X from %d to %d delivered as pgn %05X sa %d' % (want_pgn, P1, dest, got[0]['pgn'], got[0]['sa'])})
+            extra = [l for l in ids if l not in allowed]
+            missing = [l for l in must if l not in ids]
+            if extra:
+                viol.append({'clause': 'delivered-to-unaddressed-listener', 'rank': 1, 'feat': {'frame': 'cm-pdu%d' % (1 if pfx < 240 else 2)},
+                             'msg': 'connection-mode message %05X to %d was delivered to %s; bound listeners: %s' % (want_pgn, dest, sorted(extra), sorted(allowed))})
+            if missing:
+                viol.append({'clause': 'not-delivered-to-bound-listener', 'rank': 2, 'feat': {'frame': 'cm-pdu%d' % (1 if pfx < 240 else 2)},
+                             'msg': 'connection-mode message %05X to %d was not delivered to %s (peer errors %s)' % (want_pgn, dest, sorted(missing), p1.protocol_errors[:1])})
+            if len(ids) != len(set(ids)):
+                viol.append({'clause': 'duplicate-delivery', 'rank': 2, 'feat': {'frame': 'cm'}, 'msg': 'connection-mode message to %d delivered twice to a listener' % dest})
     # ---- a broadcast (BAM) from a reference node is for everybody
     n0 = len(w.deliveries)
     d3 = payload(14, scn['foreign_len'])
